@@ -130,6 +130,7 @@ class Stub:
     def __init__(self, run, kind):
         self.run, self.kind = run, kind
         self.calls = []
+        self.memo = {}
 
     def __call__(self, A, *args, **kw):
         c = len(self.calls)
@@ -143,7 +144,7 @@ class Stub:
                        cfgname=type(kw.get("eigenvector_computation_config")).__name__, est_dtype=None if est is None else str(est.dtype), A_dtype=str(A.dtype))
             base = f"Q{c}"
         rec["A_dtype"] = str(A.dtype)
-        outcome = self.run.fault(self.kind, c)
+        outcome = self.run.fault(self.kind, c) if self.run is not None else "ok"
         rec["outcome"] = outcome
         rec["X"] = None
         self.calls.append(rec)
@@ -151,7 +152,14 @@ class Stub:
         if outcome == "raise":
             raise RuntimeError("injected failure of the matrix routine")
         n = A.shape[0] if A.dim() else 1
-        X = arr_symmetric(base, n) if self.kind == "invroot" else arr_var(base, (n, n))
+        # a function of its arguments: the same arguments give the same result (memoised on fingerprints / values)
+        key = (self.kind, _argkey(rec["A"]), str(rec.get("root")), _argkey(np.array([rec.get("eps", 0.0)], dtype=object)),
+               _argkey(rec["est"]) if rec.get("est") is not None and rec.get("cfgname") == "QRConfig" else None, rec.get("diag"))
+        if key in self.memo:
+            X = self.memo[key]
+        else:
+            X = arr_symmetric(base, n) if self.kind == "invroot" else arr_var(base, (n, n))
+            self.memo[key] = X
         if A.dim() == 0 or A.numel() == 1 and A.dim() != 2:
             X = X.reshape(A.shape)
         rec["X"] = X
@@ -164,15 +172,24 @@ class Stub:
         return t
 
 
+def _argkey(a):
+    vals = list(np.array(a, dtype=object).reshape(-1))
+    if IS_SYM:
+        return tuple(SymReal.lift(v).fp for v in vals)
+    return tuple(round(float(v), 12) for v in vals)
+
+
 # ------------------------------------------------------------------------------------------ the run
 class OptRun:
     """cfg keys: params [shapes], groups [[param idx]], mpd, merge, pf, sps, graft, nesterov, bias_corr, decoupled, precond
     (shampoo|soap_eigh|soap_qr), inv_root_override, ignored_dims, exponent_multiplier, pdtype, fdtype, fixed {hp: value},
     group_overrides [{...}], tolerated."""
 
-    def __init__(self, cfg, tag=""):
+    def __init__(self, cfg, tag="", init_values=None, hp=None):
         self.cfg = cfg
         self.tag = tag
+        self.init_values = init_values
+        self.hp_given = hp
         self.info = dict(cfg=cfg, signature=dict(kind="update-rule"))
         self.fault_fn = None
         self.params, self.W0 = [], []
@@ -190,7 +207,7 @@ class OptRun:
         import distributed_shampoo.utils.shampoo_preconditioner_list as pl
 
         cfg = self.cfg
-        self.hp = {k: hp_value(self.tag + k, cfg) for k in HP}
+        self.hp = {k: hp_value(self.tag + k, cfg) for k in HP} if self.hp_given is None else dict(self.hp_given)
         assume_domain(self.hp)
         hp = self.hp
         if cfg.get("assume_generic") and IS_SYM:
@@ -208,7 +225,7 @@ class OptRun:
         fdt = dtype_of(cfg.get("fdtype", "float32"))
         self.pdt, self.fdt = pdt, fdt
         for i, shape in enumerate(cfg["params"]):
-            w0 = arr_var(f"{self.tag}w{i}", tuple(shape))
+            w0 = arr_var(f"{self.tag}w{i}", tuple(shape)) if self.init_values is None else np.array(self.init_values[i], dtype=object).reshape(tuple(shape))
             self.W0.append(w0)
             p = torch.nn.Parameter(to_tensor(w0, pdt))
             self.params.append(p)
@@ -237,8 +254,12 @@ class OptRun:
         else:
             pc = EigenvalueCorrectedShampooPreconditionerConfig(amortized_computation_config=QRConfig(),
                                                                 num_tolerated_failed_amortized_computations=tol, ignored_dims=ign)
-        self.inv_stub = Stub(self, "invroot")
-        self.eig_stub = Stub(self, "eigvecs")
+        # one pair of stubs per path, shared by all optimizers built on this path (same arguments -> same result)
+        if "inv_stub" not in CTX.shared:
+            CTX.shared["inv_stub"] = Stub(self, "invroot")
+            CTX.shared["eig_stub"] = Stub(self, "eigvecs")
+        self.inv_stub = CTX.shared["inv_stub"]
+        self.eig_stub = CTX.shared["eig_stub"]
         pl.matrix_inverse_root = self.inv_stub
         pl.matrix_eigenvectors = self.eig_stub
         self._orig_check_diagonal = getattr(pl, "_verif_orig_check_diagonal", None) or pl.check_diagonal
